@@ -24,6 +24,20 @@ CHECKS = {
         technique='symbolic execution of MIR + SMT (z3 Int encoding), counterexample replay on the native build',
         design='§4 C02 (M02a)',
     ),
+    'C10': dict(
+        engine='M',
+        category='other',
+        text='Bounded symbolic check of the rpx kernel: the MIR of write_maybe_rpx_dimension is executed with symbolic value, '
+             'ratio, sign, int_value and unit; z3 decides the unit gate (converted iff unit == "rpx", emitted unit "vw", sign kept), '
+             'field-for-field pass-through of every other dimension, source-position and source-name provenance, and the accuracy '
+             '|new - value*100/ratio| <= 1.5 eps |.| in the standard f32 rounding-error model for all values in the stated ranges. '
+             'Number serialisation (cssparser ToCss) is outside: the "integers keep their value exactly" half is not claimed.',
+        note='Trusted: MIR text of the current tree; contracts f32::round/abs (exact), CowRcStr deref/clone/into as identities, '
+             'append_token as an event; f32 operations as exact*(1+d), |d|<=2^-24, valid for 2^-20<=|value|<=2^40, 2^-10<=ratio<=2^20 '
+             '(thorough: wider).  sat verdicts are replayed through StyleSheetTransformer::from_css.',
+        technique='symbolic execution of MIR + SMT (z3, nonlinear real arithmetic rounding-error model), replay through from_css',
+        design='§4 C10',
+    ),
 }
 
 NOT_APPLICABLE = {
